@@ -87,7 +87,7 @@ func Copy(dst, src Tensor) error {
 			return errors.Errorf("Cannot copy from DenseTensor to %T", dst)
 		}
 
-		if st.RequiresIterator() || dt.RequiresIterator() {
+		if st.RequiresIterator() || dt.RequiresIterator() || !dt.DataOrder().HasSameOrder(st.DataOrder()) {
 			siter := st.Iterator()
 			diter := dt.Iterator()
 			_, err := copyDenseIter(dt, st, diter, siter)
